@@ -50,7 +50,12 @@ def seeds_table():
 
 def findings_table():
     kf = json.load(open(V + '/known_findings.json'))['findings']
-    rows = ['| # | property | obligation key | status | what fails |', '|---|---|---|---|---|']
+    refs = {}
+    for f in kf:
+        refs.setdefault(f['ref'], set()).add('open' if f['status'] == 'open' else 'fixed')
+    nopen = sum(1 for r, st in refs.items() if 'open' in st)
+    rows = ['Distinct findings (F numbers): **%d**, of which **%d** have at least one open entry and **%d** are completely repaired; %d obligation keys in total.' % (len(refs), nopen, len(refs) - nopen, len(kf)), '',
+            '| # | property | obligation key | status | what fails |', '|---|---|---|---|---|']
     def num(f):
         m = re.match(r'F(\d+)', f['ref'])
         return int(m.group(1)) if m else 999
